@@ -151,7 +151,7 @@ PENDING_REASON = 'not claimed yet: model, theorems and correspondence for this p
 ALL = ['C%02d' % i for i in range(1, 21)]
 
 # properties whose Properties/<pid>.v carries the obligation over the inventory of constants regenerated from the source (tools/mkprops.py, vlib/ctx.py)
-CONST_PROPS = ('C03', 'C05', 'C11', 'C12', 'C17', 'C19', 'C20')
+CONST_PROPS = ('C03', 'C04', 'C05', 'C11', 'C12', 'C17', 'C19', 'C20')
 CONST_TEXT = (' Translator tie: tools/gotools/consts regenerates Gen/Consts.v and Gen/ConstsF.v from the source on every run (every package-level string constant, '
               'every non-zero floating-point literal with its exact decimal value and its binary64); the obligations consts_agree_now (Properties, exact rationals: '
               'each literal is a classified constant of the model with the same value, each constant the model uses is still in its package, the names the model dispatches on are the declared ones) '
